@@ -52,7 +52,9 @@ def rand_line(rng, requested):
         return {'class': 'DEVICES', 'devices': devs}, k
     if k == 'device':
         # gpsd's notification about ONE device (activation / deactivation): not a DEVICES list, selects nothing
-        return dict({'class': 'DEVICE', 'path': rng.choice(PATHS + ([requested] if requested else []))}, **rng.choice([{}, {'driver': 'PPS'}, {'activated': 0}, {'driver': 'u-blox', 'native': 1}])), k
+        return dict({'class': 'DEVICE', 'path': rng.choice(PATHS + ([requested] if requested else []))},
+                    **rng.choice([{}, {'driver': 'PPS'}, {'activated': 0}, {'driver': 'u-blox', 'native': 1}, {'activated': '2024-05-01T10:00:00.000Z'},
+                                  {'activated': 1714557600.5, 'driver': 'u-blox'}, {'activated': True}])), k
     if k == 'otherclass':
         # any other report class gpsd knows, with and without the members one might expect
         cls = rng.choice(['ERROR', 'ERROR', 'POLL', 'TOFF', 'PPS', 'OSC', 'GST', 'ATT', 'RAW', 'SUBFRAME', 'devices', 'Version'])
@@ -176,6 +178,29 @@ def check(tier, seed):
                     res.violation('device selection differs from the rule (requested-if-listed, else first, else none): a path that merely resembles the requested device',
                                   {'property': 'C20', 'input': desc, 'expected': want, 'result': impl}, 'c20-select|lookalike')
                 cases.append(Case('gpsd-handshake', f'gpsd {requested.encode().hex()} L:' + jtok(v), impl, desc, nontrivial=True, kind='fixed-lookalike'))
+        # fixed corpus: a DEVICE notification (a receiver activated later) is not a device list - it selects nothing and changes
+        # no selection, before or after the DEVICES list, whatever its `activated` value
+        for requested in (None, '/dev/gnss0'):
+            for act in ('2024-05-01T10:00:00.000Z', 1714557600.5, True, 0, None):
+                note = {'class': 'DEVICE', 'path': '/dev/gnss0' if requested else '/dev/ttyACM9', 'driver': 'u-blox', 'activated': act}
+                lst = {'class': 'DEVICES', 'devices': [{'class': 'DEVICE', 'path': '/dev/ttyS3'}, {'class': 'DEVICE', 'path': '/dev/a'}]}
+                for order, want in (([note], 'sel=None enabled=False'),
+                                    ([lst, note], 'sel=None enabled=False' if requested else 'sel=/dev/ttyS3 enabled=True'),
+                                    ([note, lst], 'sel=None enabled=False' if requested else 'sel=/dev/ttyS3 enabled=True')):
+                    chunks = [json.dumps(v).encode('utf-8') + b'\r\n' for v in order]
+                    srv, SV = BK.gpsd_server(requested)
+
+                    def run2(srv=srv, chunks=chunks):
+                        for cb in chunks:
+                            srv._parse_gpsd_msg(cb)
+                        return f'sel={srv.selected_device} enabled={srv.enabled} release=None'
+                    impl = C.guarded(run2)
+                    desc = {'requested': requested, 'chunks': [c_.decode('latin-1') for c_ in chunks], 'kind': 'fixed DEVICE notification'}
+                    if not impl.startswith(want + ' '):
+                        res.violation('device selection differs from the rule (requested-if-listed, else first, else none): a DEVICE notification was taken for a device list',
+                                      {'property': 'C20', 'input': desc, 'expected': want, 'result': impl}, 'c20-select|device-notification')
+                    cases.append(Case('gpsd-handshake', f'gpsd {"-" if requested is None else requested.encode().hex()} ' + ' '.join('L:' + jtok(v) for v in order),
+                                      impl, desc, nontrivial=True, kind='fixed-device-notification'))
         n_setup = BK.gpsd_setup_cases(res, 'C20', rng, 40 if tier == 'quick' else 1500, PATHS, jtok, cases)
         res.notes['setup_runs'] = n_setup
         res.compare(cases)
